@@ -8,6 +8,7 @@ import (
 	"os"
 	"os/exec"
 	"path/filepath"
+	"runtime/pprof"
 	"sort"
 	"strconv"
 	"strings"
@@ -70,6 +71,11 @@ func cmdOne(args []string) {
 	dump := fs.String("dump", "", "write trace here")
 	fs.Parse(args)
 	loadKnown("/verif/known_findings.json")
+	if pf := os.Getenv("LAYERSIM_CPUPROFILE"); pf != "" {
+		f, _ := os.Create(pf)
+		pprof.StartCPUProfile(f)
+		defer pprof.StopCPUProfile()
+	}
 	res := sim.RunSeed(*seed, sim.ProfileFor(*prop, *tier), optsFor(*prop))
 	if res.Internal != nil {
 		fmt.Println("INTERNAL:", res.Internal)
@@ -138,6 +144,10 @@ func cmdWorker(args []string) {
 			break
 		}
 		seed := runSeed(i, *base)
+		// a long (> 2000 block) run takes most of a minute: do not start one shortly before the deadline
+		if *deadline > 0 && *deadline-time.Now().Unix() < 50 && sim.IsLong(seed, prof()) {
+			continue
+		}
 		res := sim.RunSeed(seed, prof(), optsFor(*prop))
 		line := RunLine{Index: i, Seed: seed, Violations: res.Violations, Stats: res.Stats, LogHash: res.LogHash, WallMs: res.WallMs,
 			Oracle: res.OracleData, Samples: res.Samples, Sched: sim.SchedHash(res.Trace)}
